@@ -380,7 +380,7 @@ def _skeleton(c):
         if isinstance(x, tuple):
             return tuple(f(y) for y in x)
         if hasattr(x, "__getstate__") and type(x).__module__.startswith(
-                "BTrees."):
+                ("BTrees.", "sim.subcls")):
             name = type(x).__name__
             if name.endswith("Py"):
                 name = name[:-2]
